@@ -26,7 +26,7 @@ RULE = ('(a) one case = one part of the DFS over all interleavings of W watchers
         '(start_prompt / respond / remove_prompt as updaters), every thread stopping at every '
         'line of the mixin / plug methods, preemption bound 2 (quick; 1 for 2x2) or 3 / '
         'unbounded for 1x1 (thorough); evaluations = schedules executed, distinct = distinct '
-        'complete schedules; (b) one case = (scenario with 5-8 quiescent points, 1-3 watcher '
+        'complete schedules; (killed) a KillableThread notifier killed at each line of notify_update with 1-3 registered watchers, next notification follows; (b) one case = (scenario with 5-8 quiescent points, 1-3 watcher '
         'threads, yield-injection seed); non-trivial = at least one snapshot/event pair was '
         'judged')
 ASSUMPTIONS = [
